@@ -619,6 +619,7 @@ func (w *World) txFinal(live bool) {
 		return
 	}
 	w.oracleDelivery()
+	w.confirmationsNotified()
 	w.oracleFlags(true)
 	w.oracleRequests()
 	if live {
